@@ -60,8 +60,22 @@ func (e *ruleSetEndpoint) FetchRuleSets(ctx context.Context) ([]*config.RuleSet,
 	return e.readAllBlobs(ctx, bucket)
 }
 
+// unusableBlobsError is returned together with the rule sets, which could be read, if some blobs of the
+// bucket cannot be used (e.g. because of invalid contents).
+type unusableBlobsError struct {
+	// sources of the rule sets, which would have been loaded from the affected blobs
+	sources []string
+	cause   error
+}
+
+func (e *unusableBlobsError) Error() string { return e.cause.Error() }
+func (e *unusableBlobsError) Unwrap() error { return e.cause }
+
 func (e *ruleSetEndpoint) readAllBlobs(ctx context.Context, bucket *blob.Bucket) ([]*config.RuleSet, error) {
-	var ruleSets []*config.RuleSet
+	var (
+		ruleSets []*config.RuleSet
+		unusable *unusableBlobsError
+	)
 
 	it := bucket.List(&blob.ListOptions{Prefix: e.Prefix})
 
@@ -77,18 +91,39 @@ func (e *ruleSetEndpoint) readAllBlobs(ctx context.Context, bucket *blob.Bucket)
 
 		ruleSet, err := e.readRuleSet(ctx, bucket, obj.Key)
 		if err != nil {
-			if errors.Is(err, config.ErrEmptyRuleSet) {
+			switch {
+			case errors.Is(err, config.ErrEmptyRuleSet):
 				continue
+			case gcerrors.Code(err) == gcerrors.NotFound:
+				// the blob has been removed after the contents of the bucket have been listed
+				continue
+			case errors.Is(err, heimdall.ErrCommunication), errors.Is(err, heimdall.ErrCommunicationTimeout):
+				// network issues
+				return nil, err
 			}
 
-			return nil, err
+			// each blob is a rule set of its own. One, which cannot be used, must not affect
+			// the other ones. The rule set loaded from it in the past (if any) is preserved.
+			if unusable == nil {
+				unusable = &unusableBlobsError{cause: err}
+			}
+
+			unusable.sources = append(unusable.sources, e.sourceOf(obj.Key))
+
+			continue
 		}
 
 		ruleSets = append(ruleSets, ruleSet)
 	}
 
+	if unusable != nil {
+		return ruleSets, unusable
+	}
+
 	return ruleSets, nil
 }
+
+func (e *ruleSetEndpoint) sourceOf(key string) string { return fmt.Sprintf("%s@%s", key, e.ID()) }
 
 func (e *ruleSetEndpoint) readSingleBlob(ctx context.Context, bucket *blob.Bucket) ([]*config.RuleSet, error) {
 	ruleSet, err := e.readRuleSet(ctx, bucket, e.URL.Path)
@@ -133,7 +168,7 @@ func (e *ruleSetEndpoint) readRuleSet(ctx context.Context, bucket *blob.Bucket, 
 	if len(contents.Hash) == 0 {
 		contents.Hash = digest.Sum(nil)
 	}
-	contents.Source = fmt.Sprintf("%s@%s", key, e.ID())
+	contents.Source = e.sourceOf(key)
 	contents.ModTime = attrs.ModTime
 
 	return contents, nil
